@@ -226,6 +226,12 @@ func c18Measure(cs c18Case) (allocs float64, bound float64, skipped bool) {
 			}
 			return p.AllocsCyclePair(runs), 0, false
 		}
+		if cs.Variant == 4 { // six buffers held together, then all put back
+			if C*L > 1<<14 {
+				return 0, 0, true
+			}
+			return p.AllocsCycleMany(runs), 0, false
+		}
 		return p.AllocsCycle(runs), 0, false
 	}
 	panic("unknown op " + cs.Op)
@@ -294,7 +300,7 @@ func init() {
 									}
 								}
 								if op == "pool" {
-									cases = append(cases, c18Case{Op: op, S: tn(t), D: tn(t), C: C, L: L, Variant: 1}, c18Case{Op: op, S: tn(t), D: tn(t), C: C, L: L, Variant: 2}, c18Case{Op: op, S: tn(t), D: tn(t), C: C, L: L, Variant: 3})
+									cases = append(cases, c18Case{Op: op, S: tn(t), D: tn(t), C: C, L: L, Variant: 1}, c18Case{Op: op, S: tn(t), D: tn(t), C: C, L: L, Variant: 2}, c18Case{Op: op, S: tn(t), D: tn(t), C: C, L: L, Variant: 3}, c18Case{Op: op, S: tn(t), D: tn(t), C: C, L: L, Variant: 4})
 								}
 							}
 						}
